@@ -7,6 +7,7 @@ import CM.Driver.OpsRun
 import CM.Driver.OpsDiff
 import CM.Driver.OpsC19
 import CM.Driver.OpsDeps
+import CM.Driver.OpsArgs
 open Lean
 namespace CM.Driver
 
@@ -69,6 +70,8 @@ def dispatch (j : Json) : Except String Json := do
   | "req_add" => opReqAdd j
   | "req_clean" => opReqClean j
   | "cfg_build" => opCfgBuild j
+  | "replace_args" => opReplaceArgs j
+  | "add_arg" => opAddArg j
   | _ => .error s!"bad-op: unknown op {op}"
 
 end CM.Driver
